@@ -754,7 +754,11 @@ func (s *Server) handlePAP(session *Session, data []byte) {
 		session.SetState(StateIPCPNegotiation)
 		s.startIPCPNegotiation(session)
 	} else {
-		// Terminate
+		// Terminate: a session that failed (re-)authentication keeps no client address
+		if s.clientIPPool != nil && session.ClientIP != nil {
+			s.clientIPPool.Release(session.SessionID)
+		}
+		session.ClientIP = nil
 		session.SetState(StateClosed)
 	}
 }
